@@ -8,6 +8,7 @@ abbrev N := Node toy
 
 structure St where
   net : List N := []
+  opens : List (Nat × Nat) := []     -- (node, circuit id) of exit sockets whose outside transport is open
 
 def emptyNode (a mx : Nat) : N := { addr := a, circuits := [], relays := [], exits := [], maxEarly := mx, ctr := 0 }
 
@@ -106,6 +107,9 @@ def insertSorted {β : Type} (p : Nat × β) : List (Nat × β) → List (Nat ×
   | [] => [p]
   | q :: t => if p.1 ≤ q.1 then p :: q :: t else q :: insertSorted p t
 
+def sortNat (l : List Nat) : List Nat :=
+  l.foldr (fun x acc => (acc.filter (· < x)) ++ [x] ++ (acc.filter (· ≥ x))) []
+
 def sortByCid {β : Type} (l : List (Nat × β)) : List (Nat × β) := l.foldr insertSorted []
 
 def dumpNode (nd : N) : String :=
@@ -198,6 +202,54 @@ def step (st : St) (toks : List String) : St × String :=
         | .droppedZeroDest => "dropped"
       (st, r)
     | _, _, _, _ => bad
+  | ["sink2", ct, sip, sport, hip, hport, pfx, tep, dz, data] =>
+    match sip.toNat?, sport.toNat?, hip.toNat?, hport.toNat?, ofHex? pfx, bool? tep, bool? dz, ofHex? data with
+    | some sip, some sport, some hip, some hport, some pfx, some tep, some dz, some data =>
+      let own : Option CType := if ct == "-" then none else parseCType ct
+      let r := match onDataSink own true (fromFirstHop (sip, sport) (hip, hport)) pfx tep dz data with
+        | .raw => "raw"
+        | .ownPacket => "ownPacket"
+        | .otherCommunity => "otherCommunity"
+        | .droppedNoTunnelEndpoint => "dropped"
+        | .exitSocket => "exitSocket"
+        | .droppedZeroDest => "dropped"
+      (st, r)
+    | _, _, _, _, _, _, _, _ => bad
+  | ["xsburst", ready, kinds] =>
+    -- k datagrams handed to an exit socket back to back ("i" literal address / "n" host name), then everything drains
+    match bool? ready, listItems? kinds with
+    | some ready, some ks =>
+      let sends : List XEv := ks.zipIdx.map (fun (k, i) => XEv.send i (if k == "n" then XDest.name 7 else XDest.ip 9))
+      let drain : List XEv := [XEv.transportsReady] ++ ks.map (fun _ => XEv.resolved)
+      let s := XSock.run (fun h => h + 100) ({ ready := ready } : XSock) (sends ++ drain)
+      let lost := (List.range ks.length).filter (fun i => s.out.map Prod.fst |>.count i |> (· != 1))
+      (st, s!"out={s.out.length} lost={lost.length}")
+    | _, _ => bad
+  | ["xopen", a, cid] =>
+    match a.toNat?, cid.toNat? with
+    | some a, some cid => ({ st with opens := (a, cid) :: st.opens.filter (· != (a, cid)) }, "ok")
+    | _, _ => bad
+  | ["rmstart", a, cid] =>
+    -- `remove_exit_socket` begins: nothing changes until remove_tunnel_delay has passed (ExitNode.removeStart)
+    match a.toNat?, cid.toNat? with
+    | some _, some _ => (st, "ok")
+    | _, _ => bad
+  | ["rmfinish", a, cid] =>
+    match a.toNat?, cid.toNat? with
+    | some a, some cid =>
+      match updNode st a (fun nd => (ExitNode.removeFinish ⟨nd, []⟩ cid).nd) with
+      | some st' => ({ st' with opens := st'.opens.filter (· != (a, cid)) }, "ok")
+      | none => bad
+    | _, _ => bad
+  | ["covered", a] =>
+    match a.toNat? with
+    | some a =>
+      match findNode st.net a with
+      | some nd =>
+        let x : ExitNode toy := ⟨nd, (st.opens.filter (·.1 == a)).map (·.2)⟩
+        (st, s!"{if x.covered then "covered" else "UNCOVERED"} open={showNatList (sortNat x.openSocks)}")
+      | none => bad
+    | none => bad
   | ["dump", a] =>
     match a.toNat? with
     | some a => match findNode st.net a with
